@@ -1,17 +1,26 @@
 /-
 C19 — model of `internal/mode/static/telemetry/collector.go`
-(`parseSnippetValueIntoDirectives`, `collectSnippetsFilterDirectives`,
+(`parseSnippetValueIntoDirectives` + `unescapeNginxWord`, `collectSnippetsFilterDirectives`,
 `parseDirectiveContextMapIntoLists`, `collectGraphResourceCount`, `computeRouteCount`) and of
 `cmd/gateway/commands.go: parseFlags`.  Strings are `List Char` (Go strings that arrive through the
-Kubernetes API are valid UTF-8; byte-wise `<` on UTF-8 equals code-point order).
+Kubernetes API are valid UTF-8; `for _, ch := range s` then yields the code points; byte-wise `<` on UTF-8
+equals code-point order).
 
-The model says what the code DOES (split on ";" and " "), not what it should do.
+PRIMARY model = the current code (since fix c8088bb): `parseSnippet` is the one-pass tokenizer of
+`parseSnippetValueIntoDirectives` (`tokStep`/`tokRun`), state for state.  The model says what the code DOES;
+that it extracts exactly the NGINX directive names is a theorem (`tokenizer_eq_lexer`, Props/C19), not a definition.
+
+PRE-FIX variant (`…Split`): the old code split on ";" and " ".  Kept with its witnesses and `_partial` theorem
+so that a regression to that behaviour is recognised (`Props/C19` §7, driver output `sdirs`/`scounts`).
 -/
+import NGF.Model.SnippetLex
+
 namespace NGF.Telemetry
+open NGF.SnippetLex (isNgxSpace)
 
 abbrev Str := List Char
 
-/-! ### parseSnippetValueIntoDirectives -/
+/-! ### PRE-FIX `parseSnippetValueIntoDirectives` (before c8088bb): split on ";" and " " -/
 
 /-- Go `unicode.IsSpace` (what `strings.TrimSpace` removes) -/
 def isGoSpace (c : Char) : Bool :=
@@ -49,8 +58,123 @@ def firstField (l : Str) : Str := l.takeWhile (· != ' ')
 def chunkDirective (chunk : Str) : Str := firstField (trimSpace chunk)
 
 /-- `parseSnippetValueIntoDirectives` -/
-def parseSnippet (s : Str) : List Str :=
+def parseSnippetSplit (s : Str) : List Str :=
   ((splitOn ';' s).map chunkDirective).filter (· != [])
+
+/-! ### tidy snippets: the region on which the PRE-FIX collector was right (`Props/C19` §7) -/
+
+/-- characters of a tidy directive name or argument word: no whitespace (Go's or NGINX's), none of
+`; { } " ' # \ $` -/
+def plainChar (c : Char) : Bool :=
+  !isGoSpace c && c != ';' && c != '{' && c != '}' && c != '"' && c != '\'' && c != '#' &&
+  c != '\\' && c != '$'
+
+/-- characters of the argument part of a tidy statement: plain words, `$variables`, any NGINX whitespace -/
+def argChar (c : Char) : Bool := plainChar c || c == '$' || isNgxSpace c
+
+/-- `indentation name argument-part`; the argument part is empty or starts with a SPACE -/
+structure TidyStmt where
+  lead : Str
+  name : Str
+  rest : Str
+  deriving DecidableEq, Repr
+
+def TidyStmt.ok (t : TidyStmt) : Bool :=
+  t.lead.all isNgxSpace && !t.name.isEmpty && t.name.all plainChar &&
+  (t.rest.isEmpty || t.rest.head? == some ' ') && t.rest.all argChar
+
+def TidyStmt.render (t : TidyStmt) : Str := t.lead ++ (t.name ++ t.rest)
+
+/-- cut the text between two `;` into indentation, name and argument part -/
+def tidyChunk (c : Str) : TidyStmt :=
+  let r := c.dropWhile isNgxSpace
+  ⟨c.takeWhile isNgxSpace, r.takeWhile plainChar, r.dropWhile plainChar⟩
+
+def tidyChunksOk : List Str → Bool
+  | [] => false
+  | [last] => last.all isNgxSpace || (tidyChunk last).ok
+  | c :: cs => (tidyChunk c).ok && tidyChunksOk cs
+
+/-- decidable "tidy": every `;`-terminated chunk is `indentation name( args)` with a space right after
+the name, the text after the last `;` is whitespace or one more such statement; no quotes, comments,
+blocks, escapes anywhere.  Tabs/newlines are allowed as indentation and between arguments. -/
+def isTidy (s : Str) : Bool := tidyChunksOk (splitOn ';' s)
+
+/-! ### `parseSnippetValueIntoDirectives` (current code): one-pass tokenizer
+
+Go state: `state` (gap/comment/bare/dquoted/squoted), `depth`, `escaped`, `variable`, `atStart`, `word`, `directives`.
+`escaped`/`variable`/`word` are only read in the bare/quoted states and are (re)initialised on entering them
+(`word` is emptied by every `endWord`, the only exit from those states), so they live in those constructors. -/
+
+inductive TokSt
+  | gap
+  | comment
+  | bare (word : Str) (escaped isVar : Bool)
+  | quoted (dq : Bool) (word : Str) (escaped : Bool)
+  deriving DecidableEq, Repr
+
+structure TokState where
+  st : TokSt
+  depth : Nat
+  atStart : Bool
+  directives : List Str
+  deriving DecidableEq, Repr
+
+/-- `unescapeNginxWord` (same equations as the lexer's `unescape`: `\"` `\'` `\\` → the character,
+`\t` `\r` `\n` → the control character, any other `\x` and a trailing `\` stay) -/
+def unescapeWord (w : Str) : Str := NGF.SnippetLex.unescape w
+
+/-- the closure `endWord` -/
+def endWord (s : TokState) (word : Str) : TokState :=
+  { s with st := .gap, atStart := false,
+           directives := if s.depth == 0 && s.atStart then s.directives ++ [unescapeWord word] else s.directives }
+
+/-- the closure `punct` -/
+def punct (s : TokState) (ch : Char) : TokState :=
+  { s with st := .gap, atStart := true,
+           depth := if ch == '{' then s.depth + 1 else if ch == '}' then s.depth - 1 else s.depth }
+
+/-- the closure `isSpace` -/
+def tokSpace (ch : Char) : Bool := ch == ' ' || ch == '\t' || ch == '\r' || ch == '\n'
+
+/-- body of `for _, ch := range snippetValue` -/
+def tokStep (s : TokState) (ch : Char) : TokState :=
+  match s.st with
+  | .gap =>
+    if tokSpace ch then s
+    else if ch == ';' || ch == '{' || ch == '}' then punct s ch
+    else if ch == '#' then { s with st := .comment }
+    else if ch == '"' then { s with st := .quoted true [] false }
+    else if ch == '\'' then { s with st := .quoted false [] false }
+    else { s with st := .bare [ch] (ch == '\\') (ch == '$') }
+  | .comment => if ch == '\n' then { s with st := .gap } else s
+  | .bare word escaped isVar =>
+    if escaped then { s with st := .bare (word ++ [ch]) false isVar }
+    else if ch == '{' && isVar then { s with st := .bare (word ++ [ch]) false isVar }
+    else if ch == '\\' then { s with st := .bare (word ++ [ch]) true false }
+    else if ch == '$' then { s with st := .bare (word ++ [ch]) false true }
+    else if tokSpace ch then endWord s word
+    else if ch == ';' || ch == '{' then punct (endWord s word) ch
+    else { s with st := .bare (word ++ [ch]) false false }
+  | .quoted dq word escaped =>
+    if escaped then { s with st := .quoted dq (word ++ [ch]) false }
+    else if ch == '\\' then { s with st := .quoted dq (word ++ [ch]) true }
+    else if (dq && ch == '"') || (!dq && ch == '\'') then endWord s word
+    else { s with st := .quoted dq (word ++ [ch]) false }
+
+/-- the loop, then `if state == bare || state == dquoted || state == squoted { endWord() }` -/
+def tokRun : TokState → Str → TokState
+  | s, [] =>
+    match s.st with
+    | .bare word _ _ => endWord s word
+    | .quoted _ word _ => endWord s word
+    | _ => s
+  | s, c :: cs => tokRun (tokStep s c) cs
+
+def tokInit : TokState := { st := .gap, depth := 0, atStart := true, directives := [] }
+
+/-- `parseSnippetValueIntoDirectives` -/
+def parseSnippet (s : Str) : List Str := (tokRun tokInit s).directives
 
 /-! ### collectSnippetsFilterDirectives -/
 
@@ -128,6 +252,19 @@ def mapToLists (m : List (Key × Nat)) : List Str × List Nat :=
 
 /-- `collectSnippetsFilterDirectives`: (SnippetsFiltersDirectives, SnippetsFiltersDirectivesCount) -/
 def collectDirectives (fs : List Filter) : List Str × List Nat := mapToLists (countMap (allKeys fs))
+
+/-! ### PRE-FIX collector (split-based extraction, same counting and sorting) -/
+
+def snippetKeysSplit (s : Snippet) : List Key :=
+  (parseSnippetSplit s.text).map fun d => { directive := d, context := ctxName s.ctx }
+
+def filterKeysSplit : Filter → List Key
+  | none => []
+  | some ss => ss.flatMap snippetKeysSplit
+
+def allKeysSplit (fs : List Filter) : List Key := fs.flatMap filterKeysSplit
+
+def collectDirectivesSplit (fs : List Filter) : List Str × List Nat := mapToLists (countMap (allKeysSplit fs))
 
 /-! ### collectGraphResourceCount over an abstract graph summary -/
 
